@@ -13,6 +13,7 @@ package slug
 //@   ensures C04.lexical.segment: ok && len(p.allowSymlinkTargets) == 0 ==>
 //@       segUnder(ite(isAbs(target), Clean(target), Join(Dir(ite(isAbs(path), path, Join(Abs(root), path))), target)), Abs(root))
 //@   ensures C04,C12.illegal: !ok ==> err != nil
+//@   ensures C03,C05.notskip: err != filepath.SkipDir
 //@   ensures C04.physical: ok && len(p.allowSymlinkTargets) == 0 && !isAbs(target) ==> dotdotOnlyLeading(target)
 //@   guide g: isPlainAbs(root) && isPlainRel(path) && (isDotDotRel(target) || isPlainAbs(target))
 
@@ -31,31 +32,54 @@ package slug
 //@   invariant loop2 C12.eof.inv2: $eof
 //@   ensures C12.eof: err == nil ==> $eof
 
+//@ macro metaMatchesArchive(M): M != nil && len(M.Files) == $tarN && M.Size == $tarBody
+//@     && (0 <= anyIndex && anyIndex < $tarN ==> M.Files[anyIndex] == arrSelect($tarNames, anyIndex))
 //@ func (*Packer).Pack -> (meta, err)
 //@   sweep
 //@   requires pre.p: p != nil
+//@   ghost $tarN Int = 0
+//@   ghost $tarBody Int = 0
+//@   ghost $tarNames (Array Int String) = emptyNames
+//@   ghost $tarCloseErr Iface = nil
+//@   ghost $gzipCloseErr Iface = nil
+//@   ensures C20.pack.meta: err == nil ==> metaMatchesArchive(meta)
+//@   ensures C12.pack.close-errors: err == nil ==> isNil($tarCloseErr) && isNil($gzipCloseErr)
+//@   ensures C12.pack.noresult: err != nil ==> meta == nil
 
-//@ func (*Packer).packWalkFn$1 -> (err)
+//@ func (*Packer).packWalkFn$1 -> (rerr)
 //@   sweep
+//@   ghost $tarN Int
+//@   ghost $tarBody Int
+//@   ghost $tarNames (Array Int String)
+//@   closure-invariant C20.walk.meta: metaMatchesArchive(meta)
+//@   at-call (*archive/tar.Writer).WriteHeader C03.pack.excluded-never-written: !excl(ignoreRules, Rel(src, path)) && (modeDirBit(fileMode(info)) ==> !excl(ignoreRules, Rel(src, path) + "/"))
+//@   ensures C03.pack.prune-only-if-excluded: err == nil && rerr == filepath.SkipDir ==> modeDirBit(fileMode(info)) && excl(ignoreRules, Rel(src, path) + "/") && domin(ignoreRules, Rel(src, path) + "/")
 //@   replay packSelfLoop:
 //@   decreases C19.terminates: maxExternalLinkHops - len(dereferenced)
 //@   at-call os.Open C19.open-regular: modeRegular(fileMode(info)) || (resolved != nil && modeRegular(fileMode(resolved.info)))
 //@   requires pre.captured: p != nil && meta != nil && tarW != nil
 
 //@ func (*Packer).resolveExternalLink -> (r, err)
+//@   pure
 //@   sweep
 //@   requires pre.p: p != nil
 //@   ensures C19.result: err == nil ==> r != nil
+//@   ensures C03,C05.notskip: err != filepath.SkipDir
 
 //@ func (*Packer).followExternalLink -> (r, err)
+//@   pure
 //@   sweep
 //@   replay packCycle:
 //@   requires pre.p: p != nil
 //@   decreases C19.terminates: hops
 //@   ensures C19.result: err == nil ==> r != nil
+//@   ensures C03,C05.notskip: err != filepath.SkipDir
 
 //@ func parseIgnoreFile -> (r)
 //@   sweep
 
 //@ func matchIgnoreRules -> (r)
+//@   pure
 //@   sweep
+//@   defines def.excl: r.Excluded == excl(ruleset, path) && r.Dominating == domin(ruleset, path)
+//@   ensures C03.use.off: ruleset == nil ==> !r.Excluded && !r.Dominating
